@@ -87,11 +87,11 @@ theorem valueStart_some (cfg : Cfg) (s s' : St) (c : Nat) (h : valueStart cfg s 
   by_cases h9 : 49 ≤ c ∧ c ≤ 57; · exact ⟨.integer, by simp [h7, h8, h9]⟩
   simp [h1, h2, h3, h4, h5, h6, h7, h8, h9] at h
 
-/-- in a state in which a value may start, the next character after the white space starts a value (or, in
-    `expect_value_or_end`, is the closing bracket) -/
-theorem value_head (cfg : Cfg) (hcm : cfg.comments = false) (htc : cfg.trailingComma = false) (s0 : St)
+/-- in a state in which a value may start, the next character after the white space starts a value (or is a `]` directly inside
+    an array: the closing bracket of an empty array or, with `allow_trailing_comma`, after a comma) -/
+theorem value_head (cfg : Cfg) (hcm : cfg.comments = false) (s0 : St)
     (hv : vState s0.st = true) (c : Nat) (cs : Bytes) (hw : isWs c = false)
-    (hne : ¬ (c = 93 ∧ s0.st = .expectValueOrEnd)) (h : Acc cfg s0 (c :: cs)) :
+    (hne : ¬ (c = 93 ∧ parent s0 = .array)) (h : Acc cfg s0 (c :: cs)) :
     c = 123 ∨ c = 91 ∨ c = 34 ∨ c = 116 ∨ c = 102 ∨ c = 110 ∨ ∃ ns0, numStart c = some ns0 := by
   have he := h.err_none
   cases hvs : valueStart cfg s0 c with
@@ -108,11 +108,19 @@ theorem value_head (cfg : Cfg) (hcm : cfg.comments = false) (htc : cfg.trailingC
       cases hst : s0.st <;> simp [vState, hst] at hv
       · simp only [stepChar, hst, hsp, hvs, fail]
         (repeat' split) <;> (first | contradiction | simp)
-      · have h93 : c ≠ 93 := fun e => hne ⟨e, hst⟩
-        simp only [stepChar, hst, hsp, hvs, fail, h93]
-        (repeat' split) <;> (first | contradiction | simp)
-      · simp only [stepChar, hst, hsp, hvs, fail, htc]
-        (repeat' split) <;> (first | contradiction | simp)
+      · by_cases h93 : c = 93
+        · subst h93
+          have hp : ¬ parent s0 = .array := fun e => hne ⟨rfl, e⟩
+          simp only [stepChar, hst, hsp, hvs, endArray]
+          (repeat' split) <;> (first | contradiction | simp [fail])
+        · simp only [stepChar, hst, hsp, hvs, fail, h93]
+          (repeat' split) <;> (first | contradiction | simp)
+      · by_cases h93 : c = 93
+        · subst h93
+          have hp : ¬ parent s0 = .array := fun e => hne ⟨rfl, e⟩
+          simp [stepChar, hst, hsp, hvs, fail, hp, isCtl]
+        · simp only [stepChar, hst, hsp, hvs, fail, h93]
+          (repeat' split) <;> (first | contradiction | simp)
 
 /-- the end of the input where a value must start -/
 theorem value_not_eof (cfg : Cfg) (s0 : St) (hv : vState s0.st = true) : ¬ Acc cfg s0 [] := by
@@ -345,11 +353,11 @@ theorem colon_inv (cfg : Cfg) (hcm : cfg.comments = false) (s : St) (hs : s.st =
       simp only [stepChar, hs, hsp, h58, fail]
       (repeat' split) <;> (first | contradiction | simp)
 
-/-- where a member name must start: `"` (or `}` right after the opening brace) -/
-theorem key_inv (cfg : Cfg) (hcm : cfg.comments = false) (htc : cfg.trailingComma = false) (s : St)
+/-- where a member name must start: `"` (or `}` right after the opening brace, or after a comma with `allow_trailing_comma`) -/
+theorem key_inv (cfg : Cfg) (hcm : cfg.comments = false) (s : St)
     (hs : s.st = .expectMemberNameOrEnd ∨ s.st = .expectMemberName)
     (t : Bytes) (ht : ∀ c r, t = c :: r → isWs c = false) (h : Acc cfg s t) :
-    (∃ r, t = 34 :: r) ∨ (s.st = .expectMemberNameOrEnd ∧ ∃ r, t = 125 :: r) := by
+    (∃ r, t = 34 :: r) ∨ ((s.st = .expectMemberNameOrEnd ∨ cfg.trailingComma = true) ∧ ∃ r, t = 125 :: r) := by
   have he := h.err_none
   cases t with
   | nil => exact absurd h (Acc.not_eof (by rcases hs with hs | hs <;> simp [finish1, hs, fail]))
@@ -359,7 +367,7 @@ theorem key_inv (cfg : Cfg) (hcm : cfg.comments = false) (htc : cfg.trailingComm
     · subst h47; exact absurd h (slash_dead cfg hcm s (by rcases hs with hs | hs <;> rw [hs] <;> rfl) r)
     · have hsp := spaceOrSlash_none s c (ht c r rfl) h47
       rcases hs with hs | hs
-      · by_cases h125 : c = 125; · exact Or.inr ⟨hs, r, by rw [h125]⟩
+      · by_cases h125 : c = 125; · exact Or.inr ⟨Or.inl hs, r, by rw [h125]⟩
         exfalso
         refine Acc.not_dead ?_ h
         have hcons : (stepChar cfg s c).2 = true := by
@@ -367,13 +375,22 @@ theorem key_inv (cfg : Cfg) (hcm : cfg.comments = false) (htc : cfg.trailingComm
         rw [feedChar_of_consumed cfg s c he hcons]
         simp only [stepChar, hs, hsp, h34, h125, fail]
         (repeat' split) <;> (first | contradiction | simp)
-      · exfalso
-        refine Acc.not_dead ?_ h
-        have hcons : (stepChar cfg s c).2 = true := by
-          apply stepChar_consumed <;> simp [hs]
-        rw [feedChar_of_consumed cfg s c he hcons]
-        simp only [stepChar, hs, hsp, h34, htc, fail]
-        (repeat' split) <;> (first | contradiction | simp)
+      · by_cases htc : cfg.trailingComma = true
+        · by_cases h125 : c = 125; · exact Or.inr ⟨Or.inr htc, r, by rw [h125]⟩
+          exfalso
+          refine Acc.not_dead ?_ h
+          have hcons : (stepChar cfg s c).2 = true := by
+            apply stepChar_consumed <;> simp [hs]
+          rw [feedChar_of_consumed cfg s c he hcons]
+          simp only [stepChar, hs, hsp, h34, h125, fail]
+          (repeat' split) <;> (first | contradiction | simp)
+        · exfalso
+          refine Acc.not_dead ?_ h
+          have hcons : (stepChar cfg s c).2 = true := by
+            apply stepChar_consumed <;> simp [hs]
+          rw [feedChar_of_consumed cfg s c he hcons]
+          simp only [stepChar, hs, hsp, h34, htc, fail]
+          (repeat' split) <;> (first | contradiction | simp)
 
 end JsonParser
 end Model
